@@ -10,3 +10,17 @@ claim("C07", "typestate analysis by abstract path enumeration over continuation 
       "pending callback slots are cleared only after draining. Structural necessary conditions only: liveness and the readyCallback countdown are not decided.",
       BASE_NOTE + "Assumes mq.Client.SendRequest completes exactly once (C18). Accepted drop point: a task refused because the connection is disposing. Known finding F9 (Dispose drops ready callbacks on a live connection) is reported as KNOWN-FINDING.",
       "DESIGN.md §4 C07, §3.2")
+
+_T = "typestate / dominance analysis by abstract path enumeration over continuation trees (go/ssa, no execution)"
+for _id, _txt in {
+ "C01": "Decides structural necessary conditions of convergence: version filter on delivery, event gate, (more rules being added). Not decided: end-to-end equality of client copy and service state.",
+ "C03": "Decides: handleEvent conformance (stamp, apply, fan-out inside the unlock window, no go statement), content/version/update change together, version filter, event gate with in-loop re-test. Not decided: socket delivery, lock capacity countdown.",
+ "C04": "Decides: data hand-out only after a get grant on the same continuation path; decision lists of CanGet/CanCall; verdict cached only for result/accessDenied; verdict invalidated on every trigger. Not decided: staleness of an access answer in flight.",
+ "C06": "Decides: token change fans out to every subscription; verdict cleared and gate closed before the re-check, validate then reopen after. Not decided: timing.",
+ "C08": "Decides: direct-count acquire/release pairing on every continuation path of every function taking a direct subscription. Not decided: numeric equality with the response history.",
+ "C09": "Decides: cache use-count pairing (getSubscription, sendRequest, Subscribe, membership removal, late Loaded). Not decided: eviction delay, gauges at quiescence.",
+ "C12": "Decides (plumbing only): re-fetch once per matching cached entry with its normalised query unless one is outstanding; resetting flag protocol; derived events through handleEvent. Not decided: wildcard matcher, model diff, LCS edit script (the core of the property).",
+ "C13": "Decides: one lock per cached query released exactly once on every outcome, request to the event's subject with the query key, per-iteration capture, initial load guarded by the not-loaded test of the same entry, repeated Loaded ignored. Not decided: lock capacity countdown arithmetic.",
+ "C19": "Decides: exactly one Done per governed request on every path, outside any refusable task. Not decided: counting outstanding requests at run time.",
+}.items():
+    claim(_id, _T, _txt, BASE_NOTE, "DESIGN.md §4 " + _id)
